@@ -23,7 +23,7 @@ RULE = (
 ASSUMPTIONS = [
     'main body = connected group with the most distinct grid levels; when two groups tie, either is accepted',
 ]
-SIZES = {'quick': dict(gi=220, hm=300, ds=40, cli=6), 'thorough': dict(gi=8000, hm=12000, ds=1600, cli=100)}
+SIZES = {'quick': dict(gi=600, hm=800, ds=80, cli=8), 'thorough': dict(gi=8000, hm=12000, ds=1600, cli=100)}
 REQUIRED = {
     tier: {
         'collections-compared-under-permutation': 100,
